@@ -211,6 +211,11 @@ M = [
   """        return 1 + 1 + 2 * self.count
 """, """        return 1 + 1 + 2 * self.count - (1 if self.count == 125 else 0)
 """),
+ ('c09_tw_udp_answers_silent_responses', 'C09', 'pymodbus/server/asynchronous.py',
+  """        if response.should_respond:
+            self._send(response, addr)
+""", """        self._send(response, addr)
+"""),
 ]
 
 
